@@ -50,6 +50,11 @@ DEFAULT_PRECISION = len(MAX_DECIMAL_TEXT.split(".")[1])
 DEFAULT_SCALE = len(MAX_DECIMAL_TEXT) - 1
 
 
+#: Maximum number of digits for numbers in ranges; Python refuses to convert longer integer numbers to text.
+_MAX_DIGIT_COUNT = 4000
+_MAX_BIT_LENGTH = 13287  # int(_MAX_DIGIT_COUNT * math.log2(10))
+
+
 def code_for_number_token(name, value, location):
     """
     The numeric code for text representing an :py:class:`int` in ``value``.
@@ -67,6 +72,13 @@ def code_for_number_token(name, value, location):
     except ValueError:
         raise errors.InterfaceError(
             "numeric value for %s must be an integer number but is: %s" % (name, _compat.text_repr(value)), location
+        )
+    if result.bit_length() > _MAX_BIT_LENGTH:
+        # For example a hexadecimal literal with thousands of digits, which Python can hold but not print.
+        raise errors.InterfaceError(
+            "numeric value for %s must have at most %d digits but is: %s..."
+            % (name, _MAX_DIGIT_COUNT, _compat.text_repr(value[:20])),
+            location,
         )
     return result
 
@@ -605,6 +617,9 @@ class DecimalRange(Range):
                         if next_type == token.NUMBER:
                             try:
                                 decimal_value = decimal.Decimal(next_value)
+                                if decimal_value.is_finite() and abs(decimal_value.adjusted()) > _MAX_DIGIT_COUNT:
+                                    # For example ``1e-9999999999``, which cannot be converted to text anymore.
+                                    raise decimal.InvalidOperation("exponent too large")
                                 _, digits, exponent = decimal_value.as_tuple()
                                 digits_after_dot = max(0, -exponent)
                                 if digits_after_dot > max_digits_after_dot:
